@@ -1911,13 +1911,16 @@ class Data(BaseCartesianData):
             # only the result within the view is returned.
             if not isinstance(axis, tuple):
                 axis = (axis,)
-            result_slices = tuple([subarray_slices[idim] for idim in range(self.ndim) if idim not in axis])
+            # Note that the view may drop dimensions (if it contains integers),
+            # in which case the axes refer to the dimensions of the viewed array.
+            ndim = len(subarray_slices)
+            result_slices = tuple([subarray_slices[idim] for idim in range(ndim) if idim not in axis])
 
             if chunk_view is None:
-                full_shape = [self.shape[idim] for idim in range(self.ndim) if idim not in axis]
+                full_shape = [self.shape[idim] for idim in range(ndim) if idim not in axis]
             else:
                 chunk_shape = subset_state.to_mask(self, chunk_view).shape
-                full_shape = [chunk_shape[idim] for idim in range(self.ndim) if idim not in axis]
+                full_shape = [chunk_shape[idim] for idim in range(ndim) if idim not in axis]
 
             full_result = np.full(full_shape, np.nan)
             full_result[result_slices] = result
